@@ -30,12 +30,17 @@ type PrepCase struct {
 	Hist  []PStep   `json:"hist"`
 	// Conc: every connection's history runs in its own goroutine (race leg).
 	Conc bool `json:"conc,omitempty"`
+	// Prelude: before the history every connection is sent ANOTHER prepared
+	// message (a 3-byte ping, or a short text) - prepared messages of
+	// different types share nothing on a connection.
+	Prelude int `json:"prelude,omitempty"` // 0 none, 9 ping, 1 text
 }
 
 func genPrepCase(t *rapid.T, conc bool) PrepCase {
 	var c PrepCase
 	c.Conc = conc
 	c.MT = rapid.SampledFrom([]int{1, 2, 2, 9, 10, 8}).Draw(t, "mt")
+	c.Prelude = rapid.SampledFrom([]int{0, 0, 9, 1}).Draw(t, "prelude")
 	if c.MT >= 8 {
 		n := rapid.SampledFrom([]int{0, 2, 5, 124, 125, 126, 200}).Draw(t, "clen")
 		c.Data = genPayloadOfLen(t, "cp", n)
@@ -151,7 +156,22 @@ func checkC19(c PrepCase, o *Obs) error {
 			return err
 		}
 		conns[i] = &prepConnState{cfg: cfg, tr: tr, conn: conn, compOn: true, level: 1}
+		if c.Prelude != 0 {
+			pre, perr := websocket.NewPreparedMessage(c.Prelude, []byte("pre"))
+			if perr != nil {
+				return perr
+			}
+			if werr := conn.WritePreparedMessage(pre); werr != nil {
+				return fmt.Errorf("conn %d: prelude prepared message (type %d) failed: %v", i, c.Prelude, werr)
+			}
+			frames, _, derr := wsref.DecodeFrames(tr.Wrote, !cfg.Server)
+			if derr != nil || len(frames) != 1 || int(frames[0].Opcode) != c.Prelude {
+				return fmt.Errorf("conn %d: prelude prepared message (type %d) put %d frames on the wire (%v)", i, c.Prelude, len(frames), derr)
+			}
+			tr.ResetLog()
+		}
 	}
+	o.ClassIf(c.Prelude != 0, "another_prepared_message_sent_first")
 	sendsPerConn := map[int]int{}
 	changed, mutated := false, false
 	var mu sync.Mutex
